@@ -267,8 +267,17 @@ class Body:
             if k == "goto":
                 self.succ[i].append((t["target"], ("goto",)))
             elif k == "switch":
+                # arms that lead to the same block (`A | B => ..`) are one edge: it is taken when the value is any of them
+                by_tgt = {}
                 for v, tb in t["arms"]:
-                    self.succ[i].append((tb, ("sw", v)))
+                    by_tgt.setdefault(tb, []).append(v)
+                done = set()
+                for v, tb in t["arms"]:
+                    if tb in done:
+                        continue
+                    done.add(tb)
+                    vs = by_tgt[tb]
+                    self.succ[i].append((tb, ("sw", vs[0]) if len(vs) == 1 else ("swm", tuple(vs))))
                 self.succ[i].append((t["otherwise"], ("other",)))
             elif k in ("call", "drop", "assert"):
                 if t.get("target") is not None:
@@ -609,6 +618,8 @@ class Body:
                 if known is not None:
                     if lab[0] == "sw" and lab[1] != known:
                         continue
+                    if lab[0] == "swm" and known not in lab[1]:
+                        continue
                     if lab[0] == "other" and any(v == known for v, _ in t["arms"]):
                         continue
                 nst = dict(st)
@@ -617,6 +628,8 @@ class Body:
                     src, variants = learn
                     if lab[0] == "sw":
                         nm = [n_ for (v, n_) in variants if v == lab[1]]
+                    elif lab[0] == "swm":
+                        nm = [n_ for (v, n_) in variants if v in lab[1]]
                     else:
                         taken = {v for v, _ in t["arms"]}
                         nm = [n_ for (v, n_) in variants if v not in taken]
@@ -1358,7 +1371,36 @@ class Body:
             # destructor dispatch generated by drop elaboration for a partially moved enum (`match x.field { A(v) => .., B(w) => .. }`
             # by value): it selects which variant's fields are still to be dropped, it is not a decision of the program
             return [(j, ("unknown",)) for j in range(len(self.succ[bb]))]
+        if src[0] == "discr" and (src[1].get("pty") or "").endswith("cmp::Ordering") and not src[1]["place"]["p"]:
+            # `match a.cmp(&b) { Less => .., Equal | Greater => .. }` is the comparison it spells
+            dcmp = self.single_def(src[1]["place"]["l"])
+            if dcmp is not None and dcmp.kind == "call" and callee_name(dcmp.node) in ("std::cmp::Ord::cmp",) and len(dcmp.node["args"]) == 2:
+                a_, b_ = dcmp.node["args"]
+                names = {v: nme for v, nme in src[1].get("variants", [])}
+                OPS = {"Less": "Lt", "Equal": "Eq", "Greater": "Gt"}
+                NEGS = {"Less": "Ge", "Equal": "Ne", "Greater": "Le"}
+                JOIN = {frozenset(["Equal", "Greater"]): "Ge", frozenset(["Less", "Equal"]): "Le", frozenset(["Less", "Greater"]): "Ne"}
+                for j, (tb, lab) in enumerate(self.succ[bb]):
+                    if lab[0] == "sw" and names.get(lab[1]) in OPS:
+                        out.append((j, ("bool", ("binop", OPS[names[lab[1]]], a_, b_, bb), True)))
+                    elif lab[0] == "swm":
+                        ns = frozenset(names.get(v) for v in lab[1])
+                        out.append((j, ("bool", ("binop", JOIN[ns], a_, b_, bb), True)) if ns in JOIN else (j, ("unknown",)))
+                    else:
+                        taken = {names.get(v) for v, _ in arms}
+                        rest = [n_ for n_ in OPS if n_ not in taken]
+                        if len(rest) == 1:
+                            out.append((j, ("bool", ("binop", OPS[rest[0]], a_, b_, bb), True)))
+                        elif len(rest) == 2:
+                            only = [n_ for n_ in OPS if n_ in taken]
+                            out.append((j, ("bool", ("binop", NEGS[only[0]], a_, b_, bb), True)) if len(only) == 1 else (j, ("unknown",)))
+                        else:
+                            out.append((j, ("unknown",)))
+                return out
         for j, (tb, lab) in enumerate(self.succ[bb]):
+            if lab[0] == "swm" and src[0] != "discr":
+                out.append((j, ("unknown",)))       # one of several integer / bool values: no single comparison
+                continue
             if src[0] == "discr":
                 rv = src[1]
                 names = {v: nme for v, nme in rv.get("variants", [])}
@@ -1366,6 +1408,9 @@ class Body:
                 if lab[0] == "sw":
                     nm = names.get(lab[1], str(lab[1]))
                     out.append((j, ("variant", rv["place"], nm, rv.get("pty"), allnames)))
+                elif lab[0] == "swm":
+                    inside = {names.get(v, str(v)) for v in lab[1]}
+                    out.append((j, ("notvariant", rv["place"], [nme for nme in allnames if nme not in inside], rv.get("pty"), allnames)))
                 else:
                     taken = {v for v, _ in arms}
                     rest = [nme for v, nme in rv.get("variants", []) if v not in taken]
